@@ -41,6 +41,13 @@ def bump (k : K) : List (Entry K) → Option (List (Entry K))
 
 def TC.init (w : Nat) : TC K := ⟨0, w, 1, []⟩
 
+/-- `ThresholdCounter(threshold)` for an exactly represented threshold `p/q` (a `Fraction`, a `Decimal`):
+    the guard `0 < threshold < 1` (`none` = ValueError) and `_thresh_count = int(1 / threshold)`, which for
+    exact rationals is `⌊q/p⌋`.  (For a `float` threshold the division is a rounded float division; the
+    harness computes `w` for those.) -/
+def TC.ofThreshold (p q : Nat) : Option (TC K) :=
+  if 0 < p ∧ p < q then some (TC.init (q / p)) else none
+
 /-- increment-or-insert: the `try: … += 1 / except KeyError: … = [1, bucket - 1]` statement -/
 def upsert (k : K) (b : Nat) (cm : List (Entry K)) : List (Entry K) :=
   match bump k cm with
